@@ -3,9 +3,10 @@
     [Rep val lbl c s ess]: the arrays of state [s] are the images of the entity lists [ess] (one list per array axis):
     every cell is [val] of the entities at its coordinates, every label array present is the image of its axis'
     entities under the labelling [lbl] of its field; [no_loss s s']: no label array present in [s] is missing in [s'].
-    Definitions named [old_...] model FORMER code of pybrops (repaired since) and occur only in regression witnesses.
+    Definitions named [old_...] model FORMER code of pybrops (repaired since) and occur only in regression witnesses
+    (and in [C03_zero_dim_insert_refuted]: a 0-d array index still takes that path).
     [val] and [lbl] are arbitrary (so duplicated labels are covered), the entity type is arbitrary. *)
-From PV Require Import Lib.Common Model.C03_LMat Proofs.C03_LMat Gen.C03_Dispatch Gen.C03_MetaReset Proofs.C03_Tables Gen.C03_Kernel Proofs.C03_Kernel Proofs.C03_Session.
+From PV Require Import Lib.Common Model.C03_LMat Proofs.C03_LMat Gen.C03_Dispatch Gen.C03_MetaReset Proofs.C03_Tables Gen.C03_Kernel Proofs.C03_Kernel Proofs.C03_Session Proofs.C03_IndexForm.
 Local Open Scope Z_scope.
 
 (** every class descriptor of the model is well formed (axes in range, kinds do not share array axes) *)
@@ -120,6 +121,32 @@ Theorem C03_old_scalar_insert_refuted :
               data s' <> build [[0; 1]; [0; 5; 6; 1; 2]]%nat w_val /\ data s' = T2 [[0; 5; 15; 1; 2]; [10; 6; 16; 11; 12]]).
 Proof. exact scalar_insert_witness. Qed.
 Print Assumptions C03_old_scalar_insert_refuted.
+
+(** the FORM of an index argument does not matter for delete / remove either: a bare integer index (Python int, numpy integer
+    scalar of any width, 0-d array) is the one-element index list (list, tuple, range, integer ndarray of any dtype), for
+    every class, axis and state.  The harness hands every index over in all these encodings and expects one behaviour. *)
+Theorem C03_delete_scalar_as_list : forall c s k i, op_delete c s k (OInt i) = op_delete c s k (OList [i]).
+Proof. exact delete_scalar_as_list. Qed.
+Print Assumptions C03_delete_scalar_as_list.
+Theorem C03_remove_scalar_as_list : forall c s k i, op_remove c s k (OInt i) = op_remove c s k (OList [i]).
+Proof. exact remove_scalar_as_list. Qed.
+Print Assumptions C03_remove_scalar_as_list.
+(** not vacuous (both sides succeed): the last variant of the 2 x 3 witness matrix is deleted by -1 and by [-1] *)
+Example C03_delete_scalar_satisfiable :
+  exists s', op_delete cDenseTaxaVariantMatrix w1_s 1 (OInt (-1)) = OK s' /\ shape s' = [2; 2]%nat /\
+             op_remove cDenseTaxaVariantMatrix w1_s 1 (OList [-1]) = OK s'.
+Proof. exact delete_scalar_witness. Qed.
+
+(** finding C03-zero-dim-index-insert-moveaxis (current code): a 0-d array index passes the guard
+    [isinstance(obj, (int, numpy.integer))] unwrapped, numpy.insert takes its scalar path ([old_op_insert] on [OInt]): on an
+    inner array axis the block arrives transposed - same shape, same label arrays, other cells than with the index list *)
+Theorem C03_zero_dim_insert_refuted :
+  exists s1 s2, op_insert cDenseTaxaVariantMatrix w1_s 1 (OList [1]) w1_v = OK s1 /\
+                old_op_insert cDenseTaxaVariantMatrix w1_s 1 (OInt 1) w1_v = OK s2 /\
+                shape s1 = shape s2 /\ axes s1 = axes s2 /\ data s1 <> data s2 /\
+                data s1 = T2 [[0; 5; 6; 1; 2]; [10; 15; 16; 11; 12]] /\ data s2 = T2 [[0; 5; 15; 1; 2]; [10; 6; 16; 11; 12]].
+Proof. exact zero_dim_insert_witness. Qed.
+Print Assumptions C03_zero_dim_insert_refuted.
 
 (** insert on a square-taxa matrix: one array axis only, the result is 3 x 2 with 3 taxa labels *)
 Theorem C03_square_insert_refuted :
